@@ -1069,6 +1069,8 @@ where
                 // Account for offset
                 let size = size.checked_sub(OFFSET_MAP8).ok_or(Error::InvalidLength)?;
 
+                // Keys and values carry their own format codes
+                self.elem_format_code = None;
                 (size, count)
             }
             EncodingCodes::Map32 => {
@@ -1088,6 +1090,8 @@ where
                 // Account for offset
                 let size = size.checked_sub(OFFSET_MAP32).ok_or(Error::InvalidLength)?;
 
+                // Keys and values carry their own format codes
+                self.elem_format_code = None;
                 (size, count)
             }
             _ => return Err(Error::InvalidFormatCode),
@@ -1358,16 +1362,22 @@ pub struct ArrayAccess<'a, R> {
     /// the offset of the first element body. Used as the anchor for the
     /// `consumed > size` overrun check.
     start_pos: usize,
+    /// The element constructor of this array. A compound element (list, map,
+    /// nested array) clears or replaces `Deserializer::elem_format_code`
+    /// while its own body is decoded, so it is put back before every element.
+    elem_format_code: Option<EncodingCodes>,
 }
 
 impl<'a, 'de, R: Read<'de>> ArrayAccess<'a, R> {
     pub(crate) fn new(de: &'a mut Deserializer<R>, size: usize, count: usize) -> Self {
         let start_pos = de.reader.bytes_consumed();
+        let elem_format_code = de.elem_format_code.clone();
         Self {
             de,
             size,
             count,
             start_pos,
+            elem_format_code,
         }
     }
 }
@@ -1392,6 +1402,7 @@ impl<'de, R: Read<'de>> de::SeqAccess<'de> for ArrayAccess<'_, R> {
             }
             _ => {
                 self.count -= 1;
+                self.de.elem_format_code = self.elem_format_code.clone();
                 let result = seed.deserialize(self.as_mut())?;
                 // Defense in depth: bound iteration by bytes consumed, not
                 // just by `count`. The pre-loop `count <= len` /
